@@ -11,8 +11,55 @@
    regenerated from the source, the conditions by vm_compute. *)
 From AP.Model Require Import Prelude Bytes Vocab Pred Url IriEq Nlv Json Text Equal Coll Dispatch Layout JsonTables JsonLeaf
      JsonEnc JsonTree JsonCheck JsonDec JsonNorm JsonRoundCheck DocEquiv.
-From AP.Proofs Require Import NlvP TextP C01TreeP C01ParseP C01TreeWfP C01FlatP C01ItemP C01FieldP C01RoundP C01NormP DecEquivP.
+From AP.Proofs Require Import NlvP TextP C01TreeP C01ParseP C01TreeWfP C01FlatP C01ItemP C01FieldP C01LeafP C01RoundP C01NormP DecEquivP.
 Local Open Scope nat_scope.
+
+(* ------------------------------------------------------------------ members of an endpoints list put in struct order *)
+Lemma eiso_in l p : In p (endpoints_in_struct_order l) -> In p l.
+Proof.
+  rewrite eiso_unfold. intros H. apply in_app_or in H. destruct H as [H|H].
+  - apply in_flat_map in H. destruct H as [f [_ Hp]]. destruct (efind f l) as [q|] eqn:E; [|destruct Hp].
+    destruct Hp as [<-|[]]. exact (proj1 (efind_some _ _ _ E)).
+  - apply filter_In in H. exact (proj1 H).
+Qed.
+
+Lemma eiso_in_order l p : (forall q, In q l -> in_eorder (fst q) = true) -> In p (endpoints_in_struct_order l) -> in_eorder (fst p) = true.
+Proof. intros H Hp. apply H. exact (eiso_in l p Hp). Qed.
+
+Lemma efind_first l p : In p l -> exists q, efind (fst p) l = Some q.
+Proof.
+  unfold efind. induction l as [|x r IH]; intros H; [destruct H|]. cbn [find].
+  destruct (fid_beq (fst x) (fst p)) eqn:E; [eexists; reflexivity|]. destruct H as [->|H]; [rewrite fid_beq_refl in E; discriminate|exact (IH H)].
+Qed.
+
+Lemma eiso_nonempty l p : In p l -> in_eorder (fst p) = true -> endpoints_in_struct_order l <> [].
+Proof.
+  intros Hin Hord. destruct (efind_first l p Hin) as [q Hq]. rewrite eiso_unfold.
+  assert (In q (flat_map (fun f => otl (efind f l)) endpoints_struct_order)).
+  { apply in_flat_map. exists (fst p). split; [|rewrite Hq; left; reflexivity].
+    unfold in_eorder in Hord. apply existsb_exists in Hord. destruct Hord as [x [Hx Hxe]]. apply fid_beq_eq in Hxe. subst x. exact Hx. }
+  intros C. apply app_eq_nil in C. destruct C as [C _]. rewrite C in H. destruct H.
+Qed.
+
+Lemma picked_nodup l : forall ord, NoDup ord -> nodup_fid_list (map fst (flat_map (fun f' => otl (efind f' l)) ord)) = true.
+Proof.
+  induction ord as [|f r IH]; intros Hnd; [reflexivity|]. inversion Hnd as [|? ? Hn Hnd']; subst. cbn [flat_map]. rewrite map_app.
+  destruct (efind f l) as [q|] eqn:E; cbn [otl map app]; [|exact (IH Hnd')].
+  cbn [nodup_fid_list]. rewrite (IH Hnd'), andb_true_r. apply negb_true_iff. apply not_true_is_false. intros C.
+  apply existsb_exists in C. destruct C as [x [Hx Hxe]]. apply fid_beq_eq in Hxe. subst x.
+  apply in_map_iff in Hx. destruct Hx as [q' [Hq' Hin']]. pose proof (picked_in_order l r q' Hin') as Ho.
+  apply existsb_exists in Ho. destruct Ho as [y [Hy Hye]]. apply fid_beq_eq in Hye. subst y.
+  rewrite Hq', (proj2 (efind_some _ _ _ E)) in Hy. exact (Hn Hy).
+Qed.
+
+Lemma eorder_nodup : NoDup endpoints_struct_order.
+Proof. unfold endpoints_struct_order. repeat constructor; cbn [In]; intuition discriminate. Qed.
+
+Lemma eiso_nodup l : (forall q, In q l -> in_eorder (fst q) = true) -> nodup_fid_list (map fst (endpoints_in_struct_order l)) = true.
+Proof.
+  intros H. rewrite eiso_unfold, (filter_nil _ l) by (intros q Hq; rewrite (H q Hq); reflexivity). rewrite app_nil_r.
+  exact (picked_nodup l _ eorder_nodup).
+Qed.
 
 Section Closure.
   Variable layout_of : kind -> list fdecl.
@@ -129,6 +176,19 @@ Section Closure.
     intros H. cbn [fval_size]. induction l as [|y r IH]; [destruct H|]. destruct H as [<-|H]; [lia|]. specialize (IH H). lia.
   Qed.
 
+  Lemma wf_endpoints_intro Z : Z <> [] -> nodup_fid_list (map fst Z) = true -> (forall q, In q Z -> in_eorder (fst q) = true) ->
+    (forall q, In q Z -> wf (snd q) = true) -> wfv TEndpoints (FEndpoints (Some Z)) = true.
+  Proof.
+    intros Hne Hnd Hord Hmem. destruct Z as [|[f1 i1] X]; [congruence|]. cbn [wf_fval]. rewrite Hnd. cbn [andb].
+    apply andb_true_iff. split.
+    - apply forallb_forall. intros q Hq. exact (Hord q Hq).
+    - assert (G : forall X', (forall q, In q X' -> wf (snd q) = true) ->
+                (fix go (l : list (fid * item)) : bool := match l with [] => true | (_, y) :: r => wf y && go r end) X' = true).
+      { induction X' as [|[f2 i2] r1 IHr]; intros H; [reflexivity|]. pose proof (H (f2, i2) (or_introl eq_refl)) as H1. cbn [snd] in H1.
+        rewrite H1. cbn [andb]. apply IHr. intros q Hq. apply H. right. exact Hq. }
+      exact (G ((f1, i1) :: X) Hmem).
+  Qed.
+
   Section Step.
     Variable n : nat.
     Hypothesis IH : forall x, item_size x <= n -> wf x = true ->
@@ -190,6 +250,41 @@ Section Closure.
       - (* float *) split; [exact Hw|]. split; [|apply le_n].
         cbn [wf_fval] in Hw. rewrite !andb_true_iff in Hw. destruct Hw as [Hz _]. cbn [fval_is_zero].
         apply negb_true_iff in Hz. exact Hz.
+      - (* source *)
+        change (nrmv (FSource mt c)) with (FSource mt (norm_nlv c)).
+        cbn [wf_fval] in Hw. rewrite !andb_true_iff, negb_true_iff in Hw. destruct Hw as [[Hmt Hc] Hnz].
+        assert (Hc' : match norm_nlv c with None => true | Some l => text_ok l end = true /\ (c <> None -> norm_nlv c <> None)).
+        { destruct c as [l|]; [|split; [reflexivity|congruence]]. pose proof (text_ok_norm l Hc) as T.
+          destruct (norm_nlv (Some l)) as [l'|]; [|destruct T]. split; [exact T|discriminate]. }
+        destruct Hc' as [Hc1 Hc2].
+        assert (Hz : fval_is_zero (FSource mt (norm_nlv c)) = false).
+        { cbn [fval_is_zero] in Hnz |- *. destruct mt; [|reflexivity]. destruct c as [l|]; [|discriminate Hnz].
+          destruct (norm_nlv (Some l)); [reflexivity|exfalso; apply Hc2; [discriminate|reflexivity]]. }
+        split; [|split; [exact Hz|apply le_n]]. cbn [wf_fval]. rewrite Hmt, Hc1, Hz. reflexivity.
+      - (* endpoints *)
+        destruct e as [[|p0 e0]|]; try discriminate Hw. cbn [wf_fval] in Hw. rewrite !andb_true_iff in Hw. destruct Hw as [[Hndf Hord] Hmem].
+        set (e := p0 :: e0) in *.
+        pose proof (wf_endpoints_members layout_of registry load_switch activity_types actor_types link_types e Hmem) as Hwm.
+        rewrite (norm_endpoints layout_of e).
+        set (L := map (fun p => (fst p, nrm (snd p))) e).
+        assert (HLord : forall q, In q L -> in_eorder (fst q) = true).
+        { intros q Hq. apply in_map_iff in Hq. destruct Hq as [q0 [<- Hq0]]. cbn [fst]. rewrite forallb_forall in Hord. exact (Hord q0 Hq0). }
+        assert (HLmem : forall q, In q L -> wf (snd q) = true /\ exists q0, In q0 e /\ ddepth (snd q) <= ddepth (snd q0)).
+        { intros q Hq. apply in_map_iff in Hq. destruct Hq as [q0 [<- Hq0]]. cbn [snd].
+          assert (Hsq : item_size (snd q0) <= n) by (pose proof (size_endpoints_in e q0 Hq0); lia).
+          destruct (IH (snd q0) Hsq (Hwm q0 Hq0)) as [A [_ C]]. split; [exact A|]. exists q0. split; [exact Hq0|exact C]. }
+        assert (HLne : endpoints_in_struct_order L <> []).
+        { apply (eiso_nonempty L (fst p0, nrm (snd p0))); [left; reflexivity|]. cbn [fst]. rewrite forallb_forall in Hord. apply Hord. left. reflexivity. }
+        split; [|split].
+        + apply wf_endpoints_intro; [exact HLne|exact (eiso_nodup L HLord)| |].
+          * intros q Hq. exact (eiso_in_order L q HLord Hq).
+          * intros q Hq. exact (proj1 (HLmem q (eiso_in L q Hq))).
+        + destruct (endpoints_in_struct_order L); [congruence|reflexivity].
+        + cbn [fdepth_v]. apply le_n_S. apply ddepth_endpoints_le. intros q Hq.
+          destruct (HLmem q (eiso_in L q Hq)) as [_ [q0 [Hq0 Hle]]]. pose proof (ddepth_endpoints_in e q0 Hq0). lia.
+      - (* public key *) split; [exact Hw|]. split; [|apply le_n].
+        cbn [wf_fval] in Hw. rewrite !andb_true_iff, negb_true_iff in Hw. destruct Hw as [_ Hnz]. cbn [fval_is_zero].
+        cbn [fval_is_zero] in Hnz. destruct a, b, c; try reflexivity; discriminate Hnz.
     Qed.
   End Step.
 
@@ -236,7 +331,7 @@ Section Closure.
              destruct fs'; [discriminate E0|reflexivity].
           -- apply canon_nodup.
           -- unfold type_selects in Hsel |- *. unfold get_str in Hsel |- *. rewrite (Hget F_Type).
-             destruct (getf F_Type fs) as [[i|[l|]|l|s|t|d|u|z|b|m|mt c|e|a b c]|]; exact Hsel.
+             destruct (getf F_Type fs) as [[i|[l|]|l|s|t|d|u|z|b|m|mt c|[e|]|a b c]|]; exact Hsel.
           -- unfold fs', G. rewrite <- (norm_obj layout_of p k fs), (norm_idem layout_of Hlayout). exact Hnotempty.
           -- apply wf_fields_intro. intros f v' Hin. destruct (Hin' f v' Hin) as [v [Hv ->]].
              destruct (Hstep f v Hv) as [d [Hd [Hwv _]]]. exists d. split; assumption.
@@ -286,30 +381,30 @@ Section FixClause.
   Notation dtree := (unmarshal_to_item jr_tables layout_of registry load_switch activity_types actor_types link_types).
 
   (* the normal form of a well-formed value: encoding is defined, not empty, and decodes to the value itself *)
-  Theorem norm_is_fixpoint x : wf x = true -> ddepth x <= 64 ->
+  Theorem norm_is_fixpoint x : wf x = true -> ddepth x <= 149 ->
     exists b, enc (nrm x) = Some b /\ b <> [] /\ dec b = Some (Ok (nrm x)).
   Proof.
     intros Hw Hd.
     pose proof (wf_norm layout_of registry load_switch activity_types actor_types link_types Hlayout x Hw) as Hw'.
     pose proof (ddepth_norm layout_of registry load_switch activity_types actor_types link_types Hlayout x Hw) as Hd'.
-    destruct (json_roundtrip jw_tables jr_tables layout_of registry load_switch activity_types actor_types link_types
+    destruct (json_roundtrip_depth jw_tables jr_tables layout_of registry load_switch activity_types actor_types link_types
                 Htables (nrm x) Hterms Hw' ltac:(lia)) as [b [E [Hne D]]].
     rewrite (norm_idem layout_of Hlayout) in D. exists b. repeat split; assumption.
   Qed.
 
   (* a value in normal form already *)
-  Theorem normal_value_fixpoint y : wf y = true -> ddepth y <= 64 -> nrm y = y ->
+  Theorem normal_value_fixpoint y : wf y = true -> ddepth y <= 149 -> nrm y = y ->
     exists b, enc y = Some b /\ b <> [] /\ dec b = Some (Ok y).
   Proof. intros Hw Hd E. rewrite <- E. apply norm_is_fixpoint; assumption. Qed.
 
   (* two rounds from any well-formed value: the first decoding gives the normal form; encoding THAT and decoding again
      gives the same value *)
-  Theorem two_rounds x : wf x = true -> ddepth x <= 64 ->
+  Theorem two_rounds x : wf x = true -> ddepth x <= 149 ->
     exists b1 b2, enc x = Some b1 /\ dec b1 = Some (Ok (nrm x)) /\
                   enc (nrm x) = Some b2 /\ b2 <> [] /\ dec b2 = Some (Ok (nrm x)).
   Proof.
     intros Hw Hd.
-    destruct (json_roundtrip jw_tables jr_tables layout_of registry load_switch activity_types actor_types link_types
+    destruct (json_roundtrip_depth jw_tables jr_tables layout_of registry load_switch activity_types actor_types link_types
                 Htables x Hterms Hw Hd) as [b1 [E1 [_ D1]]].
     destruct (norm_is_fixpoint x Hw Hd) as [b2 [E2 [N2 D2]]].
     exists b1, b2. repeat split; assumption.
@@ -328,7 +423,7 @@ Section FixClause.
     end.
 
   (* from the second round on, bytes and value no longer change *)
-  Theorem rounds_stable x : wf x = true -> ddepth x <= 64 ->
+  Theorem rounds_stable x : wf x = true -> ddepth x <= 149 ->
     exists b1 b2, rounds 0 x = Some (b1, nrm x) /\ forall n, rounds (S n) x = Some (b2, nrm x).
   Proof.
     intros Hw Hd. destruct (two_rounds x Hw Hd) as [b1 [b2 [E1 [D1 [E2 [_ D2]]]]]].
@@ -341,13 +436,13 @@ Section FixClause.
   (* ---- (3) every document equivalent to the written one ---- *)
   Hypothesis Hroles : keys_roles_ok jr_tables = true.
 
-  Theorem equivalent_document_reads x v d : wf x = true -> ddepth x <= 64 ->
+  Theorem equivalent_document_reads x v d : wf x = true -> ddepth x <= 149 ->
     tree_of jw_tables x = Some (Some v) -> keys_clean d = true ->
     doc_equiv (known_of jr_tables) (text_of jr_tables) v d ->
     keys_clean v = true /\ dtree d = Some (nrm x).
   Proof.
     intros Hw Hd Ht Hc E.
-    destruct (tree_round jw_tables jr_tables layout_of registry load_switch activity_types actor_types link_types
+    destruct (tree_round_depth jw_tables jr_tables layout_of registry load_switch activity_types actor_types link_types
                 Htables x _ Hw Hd Ht) as [v' [Ev [[Hcv _] Hu]]].
     inversion Ev; subst v'. split; [exact Hcv|].
     rewrite <- (unmarshal_to_item_equiv _ _ jr_tables layout_of registry load_switch activity_types actor_types link_types
@@ -356,13 +451,13 @@ Section FixClause.
   Qed.
 
   (* the encoder's tree is defined for every well-formed value (so the hypothesis above is not vacuous) *)
-  Theorem written_tree_exists x : wf x = true -> ddepth x <= 64 -> exists v, tree_of jw_tables x = Some (Some v).
+  Theorem written_tree_exists x : wf x = true -> ddepth x <= 149 -> exists v, tree_of jw_tables x = Some (Some v).
   Proof.
     intros Hw Hd.
     destruct (enc_defined jw_tables jr_tables layout_of registry load_switch activity_types actor_types link_types
                 Htables (S (item_size x)) x Hw ltac:(lia)) as [o Et].
     fold (tree_of jw_tables x) in Et.
-    destruct (tree_round jw_tables jr_tables layout_of registry load_switch activity_types actor_types link_types
+    destruct (tree_round_depth jw_tables jr_tables layout_of registry load_switch activity_types actor_types link_types
                 Htables x o Hw Hd Et) as [v [-> _]].
     exists v. exact Et.
   Qed.
